@@ -305,3 +305,190 @@ Proof.
     apply rr_refl.
   - apply R; [lia|vm_compute; reflexivity|vm_compute; reflexivity].
 Qed.
+
+(* ---- (iv') attributes, converse: HasTemplate() = true on an Attribute token only if a region lies inside it ------- *)
+Section AttrConverse.
+Variables (c : cfg) (d : list Z) (l0 : lexer).
+Hypothesis Hc : cfg_ok c.
+Hypothesis Htb : tb c <> [].
+Hypothesis Hi : html_inv d l0.
+
+(* the cursor s is at or after the call's cursor; if the flag is set, a region lies between the two *)
+Definition RI (s : lx) (h : bool) : Prop :=
+  samele (lz l0) s /\ (h = true -> exists p q, lpos (lz l0) <= p /\ q <= lpos s /\ is_region c d p q).
+
+Lemma RI_keep s s' h : RI s h -> samele s s' -> RI s' h.
+Proof.
+  intros [Hs Hr] Hs'. split; [eapply samele_trans; eauto|]. intros Hh. destruct (Hr Hh) as (p & q & ? & ? & ?).
+  exists p, q. destruct Hs' as [_ ?]. split; [assumption|split; [lia|assumption]].
+Qed.
+
+Lemma RI_weaken s h : RI s h -> RI s false.
+Proof. intros [Hs _]. split; [exact Hs|discriminate]. Qed.
+
+Lemma has_delims_true : has_delims c = true.
+Proof. unfold has_delims. destruct (tb c); congruence. Qed.
+
+Lemma tmpl_step s z' h : RI s h -> at_ s (tb c) = Ok true -> tmpl_skip c s = Ok z' -> RI z' true.
+Proof.
+  intros [[Hsm Hle] _] Hat Hsk. pose proof Hi as ((Hw & _) & Hlen & _). pose proof (inv_pos0 d l0 Hi) as H0.
+  assert (Ha : lpos s <= len d).
+  { apply at_from_buf in Hat; [|exact Htb]. rewrite Z.add_0_r in Hat. destruct Hsm as [Hb _]. rewrite Hb in Hat.
+    destruct (tb c) as [|x t] eqn:E; [congruence|]. symmetry in Hat. apply prefixb_head in Hat. destruct Hat as [s' Es].
+    destruct (Z.le_gt_cases (lpos s) (len d)) as [?|Hgt]; [assumption|exfalso].
+    assert (E0 : skipz (lpos s) (lbuf (lz l0)) = []) by (unfold skipz; apply skipn_all2; unfold lx_len, len in *; lia).
+    congruence. }
+  rewrite (same_zat l0 s Hsm) in Hat, Hsk.
+  destruct (zat_wf d l0 (lpos s) Hi ltac:(lia)) as [Hws Hrem].
+  rewrite at_rem in Hat by (apply Hc || exact Hws). injection Hat as Hpre.
+  destruct (tmpl_skip_here c _ Hc Hws Hpre) as [Hsk' Hle']. rewrite Hsk' in Hsk. injection Hsk as <-.
+  pose proof (region_here c d l0 (lpos s) Hi ltac:(lia) Htb ltac:(rewrite <- Hrem; exact Hpre)) as Hreg.
+  destruct (is_region_in _ _ _ _ Hreg) as [_ Hlt].
+  split; [split; [split; reflexivity|cbn [lpos]; lia]|].
+  intros _. exists (lpos s), (region_end_here c (zat l0 (lpos s))). cbn [lpos]. split; [lia|]. split; [lia|exact Hreg].
+Qed.
+
+Lemma tmpl_rep_samele fuel s b r : loop fuel (tmpl_rep_body c) (s, b) = Ok r -> samele s (fst r).
+Proof.
+  intros H.
+  refine (loop_inv (fun x => samele s (fst x)) (fun x => samele s (fst x)) (tmpl_rep_body c) _ _ (s, b) r _ H); [|apply samele_refl].
+  clear. intros [z h] x Hs Hx. unfold tmpl_rep_body in Hx. cbn [fst snd] in *.
+  destruct (at_ z (tb c)) as [a| |]; cbn [rbind] in Hx; try discriminate.
+  destruct a; [|injection Hx as <-; exact Hs].
+  destruct (tmpl_skip c z) as [z'| |] eqn:E; cbn [rbind] in Hx; try discriminate. injection Hx as <-. cbn [fst].
+  eapply samele_trans; [exact Hs|apply (tmpl_skip_run _ _ _ E)].
+Qed.
+
+Lemma tmpl_rep_regions fuel s b r : RI s b -> loop fuel (tmpl_rep_body c) (s, b) = Ok r -> RI (fst r) (snd r).
+Proof.
+  intros H0 H.
+  refine (loop_inv (fun x => RI (fst x) (snd x)) (fun x => RI (fst x) (snd x)) (tmpl_rep_body c) _ _ (s, b) r H0 H).
+  clear H0 H. intros [z h] x Hs Hx. unfold tmpl_rep_body in Hx. cbn [fst snd] in *.
+  destruct (at_ z (tb c)) as [a| |] eqn:Ea; cbn [rbind] in Hx; try discriminate.
+  destruct a; [|injection Hx as <-; exact Hs].
+  destruct (tmpl_skip c z) as [z'| |] eqn:E; cbn [rbind] in Hx; try discriminate. injection Hx as <-. cbn [fst snd].
+  eapply tmpl_step; eauto.
+Qed.
+
+Lemma guarded_regions z h r0 : RI z h -> tmpl_rep_guarded c z h = Ok r0 -> RI (fst r0) (snd r0).
+Proof.
+  intros H0 H. unfold tmpl_rep_guarded in H. rewrite has_delims_true in H.
+  destruct (tmpl_rep c z) as [r| |] eqn:Er; cbn [rbind] in H; try discriminate. injection H as <-. cbn [fst snd].
+  unfold tmpl_rep in Er. destruct h; cbn [orb].
+  - eapply RI_keep; [exact H0|]. apply (tmpl_rep_samele _ _ _ _ Er).
+  - apply (tmpl_rep_regions _ _ _ _ H0 Er).
+Qed.
+
+Lemma ws_loop_samele z z' : ws_loop z = Ok z' -> samele z z'.
+Proof.
+  unfold ws_loop. intros H.
+  refine (loop_inv (fun x => samele z x) (fun x => samele z x) ws_body _ _ z z' (samele_refl z) H).
+  clear. intros s x Hs Hx. unfold ws_body in Hx. destruct (pkr s 0) as [c0| |]; cbn [rbind] in Hx; try discriminate.
+  destruct (is_ws c0); injection Hx as <-; [eapply samele_trans; [exact Hs|apply samele_mv; lia]|exact Hs].
+Qed.
+
+Lemma attru_loop_samele fuel z z' : loop fuel attru_body z = Ok z' -> samele z z'.
+Proof.
+  intros H.
+  refine (loop_inv (fun x => samele z x) (fun x => samele z x) attru_body _ _ z z' (samele_refl z) H).
+  clear. intros s x Hs Hx. unfold attru_body in Hx. destruct (pkr s 0) as [c0| |]; cbn [rbind] in Hx; try discriminate.
+  destruct ((c0 =? 32) || (c0 =? 62) || (c0 =? 9) || (c0 =? 10) || (c0 =? 13) || (c0 =? 12) || eof0 s c0); injection Hx as <-;
+    [exact Hs|eapply samele_trans; [exact Hs|apply samele_mv; lia]].
+Qed.
+
+Lemma attrname_regions fuel s h r : RI s h -> loop fuel (attrname_body c) (s, h) = Ok r -> RI (fst r) (snd r).
+Proof.
+  intros H0 H.
+  refine (loop_inv (fun x => RI (fst x) (snd x)) (fun x => RI (fst x) (snd x)) (attrname_body c) _ _ (s, h) r H0 H).
+  clear H0 H. intros [z hz] x Hs Hx. unfold attrname_body in Hx. cbn [fst snd] in *.
+  unfold tmpl_at in Hx. rewrite has_delims_true in Hx.
+  destruct (at_ z (tb c)) as [a| |] eqn:Ea; cbn [rbind] in Hx; try discriminate.
+  destruct a.
+  - destruct (tmpl_skip c z) as [z'| |] eqn:E; cbn [rbind] in Hx; try discriminate. injection Hx as <-. cbn [fst snd].
+    eapply tmpl_step; eauto.
+  - destruct (pkr z 0) as [c0| |]; cbn [rbind] in Hx; try discriminate.
+    match type of Hx with rbind ?e _ = _ => destruct e as [b| |] end; cbn [rbind] in Hx; try discriminate.
+    destruct b; injection Hx as <-; cbn [fst snd]; [exact Hs|]. eapply RI_keep; [exact Hs|apply samele_mv; lia].
+Qed.
+
+Lemma attrq_regions fuel delim s h r : RI s h -> loop fuel (attrq_body c delim) (s, h) = Ok r -> RI (fst r) (snd r).
+Proof.
+  intros H0 H.
+  refine (loop_inv (fun x => RI (fst x) (snd x)) (fun x => RI (fst x) (snd x)) (attrq_body c delim) _ _ (s, h) r H0 H).
+  clear H0 H. intros [z hz] x Hs Hx. unfold attrq_body in Hx. cbn [fst snd] in *.
+  destruct (pkr z 0) as [c0| |]; cbn [rbind] in Hx; try discriminate.
+  unfold tmpl_at in Hx. rewrite has_delims_true in Hx.
+  destruct (at_ z (tb c)) as [a| |] eqn:Ea; cbn [rbind] in Hx; try discriminate.
+  destruct a.
+  - destruct (tmpl_skip c z) as [z1| |] eqn:E; cbn [rbind] in Hx; try discriminate.
+    destruct (tmpl_rep c z1) as [r1| |] eqn:Er; cbn [rbind] in Hx; try discriminate. injection Hx as <-. cbn [fst snd].
+    eapply RI_keep; [eapply tmpl_step; eauto|]. apply (tmpl_rep_samele _ _ _ _ Er).
+  - destruct (c0 =? delim); [injection Hx as <-; cbn [fst snd]; eapply RI_keep; [exact Hs|apply samele_mv; lia]|].
+    destruct (eof0 z c0); injection Hx as <-; cbn [fst snd]; [exact Hs|]. eapply RI_keep; [exact Hs|apply samele_mv; lia].
+Qed.
+
+Lemma shift_attribute_regions l z v l' : RI z (lhas l) -> shift_attribute c l z = Ok (v, l') ->
+  lhas l' = true -> exists p q, lpos (lz l0) <= p /\ q <= lpos (lz l') /\ is_region c d p q.
+Proof.
+  intros H0 Hx. unfold shift_attribute in Hx.
+  destruct (tmpl_rep_guarded c z (lhas l)) as [r0| |] eqn:E0; cbn [rbind] in Hx; try discriminate.
+  pose proof (guarded_regions _ _ _ H0 E0) as H1.
+  destruct (loop (fuel_of (fst r0)) (attrname_body c) r0) as [r1| |] eqn:E1; cbn [rbind] in Hx; try discriminate.
+  assert (H2 : RI (fst r1) (snd r1)) by (destruct r0 as [a b]; exact (attrname_regions _ _ _ _ H1 E1)).
+  destruct (ws_loop (fst r1)) as [z2| |] eqn:E2; cbn [rbind] in Hx; try discriminate.
+  pose proof (ws_loop_samele _ _ E2) as Hs2.
+  destruct (pkr z2 0) as [c0| |]; cbn [rbind] in Hx; try discriminate.
+  match type of Hx with rbind ?e _ = _ => destruct e as [[[z5 has5] av]| |] eqn:E3 end; cbn [rbind] in Hx; try discriminate.
+  assert (H5 : RI z5 has5).
+  { destruct (c0 =? 61).
+    - destruct (ws_loop (mv z2 1)) as [z3| |] eqn:E4; cbn [rbind] in E3; try discriminate.
+      pose proof (ws_loop_samele _ _ E4) as Hs3.
+      assert (H3 : RI z3 (snd r1)).
+      { eapply RI_keep; [exact H2|]. eapply samele_trans; [exact Hs2|]. eapply samele_trans; [apply (samele_mv z2 1); lia|exact Hs3]. }
+      destruct (pkr z3 0) as [c1| |]; cbn [rbind] in E3; try discriminate.
+      unfold tmpl_at in E3. rewrite has_delims_true in E3.
+      destruct (at_ z3 (tb c)) as [t| |] eqn:Et; cbn [rbind] in E3; try discriminate.
+      match type of E3 with rbind ?e _ = _ => destruct e as [r| |] eqn:Er end; cbn [rbind] in E3; try discriminate.
+      destruct (lexeme_from (fst r) (mark z3)) as [vv| |]; cbn [rbind] in E3; try discriminate.
+      injection E3 as <- <- _.
+      destruct t.
+      + destruct (tmpl_skip c z3) as [z4| |] eqn:Ek; cbn [rbind] in Er; try discriminate.
+        destruct (tmpl_rep c z4) as [r4| |] eqn:Er4; cbn [rbind] in Er; try discriminate. injection Er as <-. cbn [fst snd].
+        eapply RI_keep; [eapply tmpl_step; eauto|]. apply (tmpl_rep_samele _ _ _ _ Er4).
+      + destruct ((c1 =? 34) || (c1 =? 39)).
+        * eapply attrq_regions; [|exact Er]. eapply RI_keep; [exact H3|apply samele_mv; lia].
+        * destruct (loop (fuel_of z3) attru_body z3) as [z4| |] eqn:Eu; cbn [rbind] in Er; try discriminate. injection Er as <-. cbn [fst snd].
+          eapply RI_keep; [exact H3|apply (attru_loop_samele _ _ _ Eu)].
+    - injection E3 as <- <- _. eapply RI_keep; [exact H2|].
+      destruct Hs2 as [[Hb2 Hst2] Hle2]. split; [split; [exact Hb2|exact Hst2]|]. unfold rewind, mark. cbn [lpos]. lia. }
+  destruct (tmpl_rep_guarded c z5 has5) as [r6| |] eqn:E6; cbn [rbind] in Hx; try discriminate.
+  pose proof (guarded_regions _ _ _ H5 E6) as H6.
+  destruct (lexeme_sub (fst r6) (mark z) (mark (fst r1))) as [t| |]; cbn [rbind] in Hx; try discriminate.
+  match type of Hx with rbind (shiftv ?zz) _ = _ => set (z7 := zz) in * end.
+  assert (Hp7 : lpos z7 = lpos (fst r6)) by (unfold z7; destruct (snd r1); reflexivity).
+  unfold shiftv in Hx. destruct (lexeme_ok z7); cbn [rbind] in Hx; try discriminate. injection Hx as _ <-. cbn [lhas lz fst snd skip lpos].
+  intros Hh. destruct H6 as [_ H6]. destruct (H6 Hh) as (p & q & ? & ? & ?). exists p, q. rewrite Hp7. tauto.
+Qed.
+
+End AttrConverse.
+
+Lemma html_template_attr_converse_proof : forall c d l v l', cfg_ok c -> tb c <> [] -> html_inv d l -> intag l = true ->
+  next c l = Ok (AttributeT, Some v, l') -> lhas l' = true ->
+  exists p q, lpos (lz l) <= p /\ q <= lpos (lz l') /\ is_region c d p q.
+Proof.
+  intros c d l v l' Hc Htb Hi Hit Hn Hhas.
+  unfold next in Hn. cbn [lz rawtag intag lerr ltext lattr lhas] in Hn. rewrite Hit in Hn.
+  unfold next_intag in Hn. cbn [lz rawtag intag lerr ltext lattr lhas] in Hn.
+  destruct (ws_loop (lz l)) as [z1| |] eqn:E1; cbn [rbind] in Hn; try discriminate.
+  pose proof (ws_loop_samele _ _ E1) as Hs1.
+  destruct (pkr z1 0) as [c0| |]; cbn [rbind] in Hn; try discriminate.
+  destruct (eof0 z1 c0); [discriminate|].
+  match type of Hn with rbind ?e _ = _ => destruct e as [isattr| |] end; cbn [rbind] in Hn; try discriminate.
+  destruct isattr.
+  - match type of Hn with rbind ?e _ = _ => destruct e as [[v1 l1]| |] eqn:Ea end; cbn [rbind] in Hn; try discriminate.
+    cbn [fst snd] in Hn. injection Hn as _ <-.
+    eapply (shift_attribute_regions c d l Hc Htb Hi _ z1 v1 l1); [|exact Ea|exact Hhas].
+    cbn [lhas]. split; [exact Hs1|discriminate].
+  - match type of Hn with rbind ?e _ = _ => destruct e as [s| |] end; cbn [rbind] in Hn; try discriminate.
+    destruct (c0 =? 47); discriminate.
+Qed.
